@@ -59,7 +59,8 @@ impl Case for Pres {
 }
 
 fn crate_invariants(nr_gens: usize, rels: &[Vec<i64>]) -> Vec<BigInt> {
-    let ws: Vec<FreeWord> = rels.iter().map(|w| FreeWord::new(w.iter().map(|&x| x as isize))).collect();
+    // words reach the crate the way callers build them: literally, or as values with a history (see fw)
+    let ws: Vec<FreeWord> = rels.iter().map(|w| crate::props::c11::fw(w)).collect();
     abelian_invariants(nr_gens, ws.iter()).into_iter().map(BigInt::from).collect()
 }
 
